@@ -37,7 +37,8 @@ Inductive op :=
 | ONew (k : nat) (items : list Z)      (* call the class numbered k in the current description *)
 | OClone (i : nat)                     (* toolbox.clone(roots[i]); the result becomes a new root *)
 | OPickle (i : nat)                    (* pickle.loads(pickle.dumps(roots[i], p)), same interpreter *)
-| OMut (k : nat) (m : mutation).       (* mutate the object numbered k in the current description *)
+| OMut (k : nat) (m : mutation)        (* mutate the object numbered k in the current description *)
+| OGroup (is_ : list nat).             (* a plain list [roots[i], ...] (a population) becomes a new root *)
 
 Definition mstate := (heap * list value)%type.
 
@@ -72,6 +73,11 @@ Definition run_op (s : mstate) (o : op) : option mstate :=
           end
       | None => None
       end
+  | OGroup is_ =>
+      let items := flat_map (fun i => match nth_error roots i with Some v => [v] | None => [] end) is_ in
+      if Nat.eqb (length items) (length is_)
+      then Some (h ++ [mkobj KPyList (BType 0) items []], roots ++ [Ref (length h)])
+      else None
   | OMut k mu =>
       match describe s with
       | Some (_, m) =>
